@@ -41,6 +41,7 @@ type nodeCase struct {
 	events        []nodeEvent
 	crashLog      *logDB
 	crashDone     bool
+	pw            *poolWatch
 	initLogLen    int
 	dumpAfterInit string
 	blockTxs      map[string][]*txInfo // block name -> its transactions (coinbase first)
@@ -89,7 +90,7 @@ func newNodeCase(c *Ctx, mode string, E uint64, nVal, local int, pend uint64) *n
 }
 
 func (nc *nodeCase) ledgerMode() bool {
-	return nc.mode == "ledger" || nc.mode == "rules" || nc.mode == "crash"
+	return nc.mode == "ledger" || nc.mode == "rules" || nc.mode == "crash" || nc.mode == "pool"
 }
 
 func (nc *nodeCase) close() {
@@ -110,6 +111,9 @@ func (nc *nodeCase) dump(res string) string {
 	parts := []string{"res=" + res, n.dumpStored(nc.nm), n.dumpChain(nc.nm, nc.maxH), n.dumpOrphans(nc.nm), n.dumpCasper(nc.nm)}
 	if nc.ledgerMode() {
 		parts = append(parts, n.dumpUtxo(nc.ln), n.dumpContracts(nc.ln))
+	}
+	if nc.mode == "pool" && nc.pw != nil {
+		parts = append(parts, nc.dumpPool("the last event"))
 	}
 	return strings.Join(parts, " ")
 }
@@ -132,6 +136,7 @@ func (nc *nodeCase) defBlock(parent string, slotSkip uint64, arb byte, txInfos [
 	spec := blockSpec{parent: p, slotSkip: slotSkip, arb: arb, txs: txs, rewards: ck.Rewards, ckptTs: ck.Timestamp, nVal: len(nc.env.keys)}
 	b := nc.env.buildBlock(spec)
 	if _, dup := nc.nm.byHash[b.Hash()]; dup {
+		nc.env.useLocalKey()
 		return ""
 	}
 	r := nc.ref.processBlock(b)
@@ -657,6 +662,8 @@ func runNodeCase(c *Ctx, mode string, seed int64, k int) {
 		genCaseRules(c, mode)
 	case "crash":
 		genCaseCrash(c, mode)
+	case "pool":
+		genCasePool(c, mode)
 	default:
 		genCaseTree(c, mode)
 	}
